@@ -38,4 +38,6 @@ def jobs(tier):
         km('hybrid,N=%d,k=%d,both' % (N, k), N=N, k=k, entry='hybrid', sweeps=1, mode='both')
         km('kmedoids,N=%d,k=%d,warm=all' % (N, k), N=N, k=k, entry='kmedoids', warm='all', sweeps=1)
         km('kmedoids,N=%d,k=%d,proposals' % (N, k), N=N, k=k, entry='kmedoids', warm='all', proposals=True, sweeps=1)
+        if k >= 2 and N == 3:
+            km('kmedoids,N=%d,k=%d,warm=all,(trajectory, frame) center indices' % (N, k), N=N, k=k, entry='kmedoids', warm='all-pairs', sweeps=1)
     return J
